@@ -3,6 +3,7 @@ package props
 import (
 	"fmt"
 	"sort"
+	"strings"
 	"testing"
 
 	"github.com/mfcochauxlaberge/jsonapi"
@@ -154,6 +155,23 @@ func TestC03WellFormed(t *testing.T) {
 			// Only a successful marshal is constrained.
 			r.Case(c.String(), false, "marshal-error")
 			return
+		}
+
+		// The output is looked at after other documents were marshaled (a
+		// response waiting in a queue): one case in three.
+		if rapid.IntRange(0, 2).Draw(t, "queued") == 0 {
+			first := string(out)
+
+			for i := 1; i <= 3; i++ {
+				other := &jsonapi.Document{Meta: jsonapi.Meta{"queued": strings.Repeat("#", len(out)/i)}}
+				if p := oracle.Try(func() { _, _ = jsonapi.MarshalDocument(other, c.URL) }); p != nil {
+					t.Fatalf("C03 violated: MarshalDocument %s on a meta-only document\ncase: %s", p, c)
+				}
+			}
+
+			if string(out) != first {
+				t.Fatalf("C03 violated: the bytes returned by MarshalDocument changed when other documents were marshaled\ncase: %s\ncalls: %v\nreturned: %s\nnow: %s", c, calls, first, out)
+			}
 		}
 
 		ds, derr := oracle.DecodeDocument(out)
